@@ -334,6 +334,24 @@ func runC09(c *Ctx) {
 			c09one(rec, "countersignature", "reference-signed", m.bytes, nil, in)
 		}
 	})
+	// chains of countersignatures deeper than the generator's three levels (5 to 8): accepted, so they re-encode
+	// like everything else, with and without the retained bytes
+	for depth := 4; depth <= 8; depth++ {
+		for variant := 0; variant < 3; variant++ {
+			item := refcbor.NArr(refcbor.NBstr([]byte{0xa1, 0x01, 0x26}), refcbor.NMap(), refcbor.NBstr([]byte("innermost")))
+			for lvl := 1; lvl < depth; lvl++ {
+				un := refcbor.NMap(refcbor.NInt(int64([]int{11, 7}[(lvl+variant)%2])), item)
+				if variant == 2 {
+					un.Kids = append([]*Node{refcbor.NInt(int64(900 + lvl)), refcbor.NTstr("x")}, un.Kids...) // not in canonical order
+				}
+				item = refcbor.NArr(refcbor.NBstr([]byte{0xa1, 0x01, 0x26}), un, refcbor.NBstr([]byte(fmt.Sprintf("level-%d", lvl))))
+			}
+			wire := (&gen.WSign1{L: gen.WLayer{ProtMap: refcbor.NMap(refcbor.NInt(1), refcbor.NInt(-7)), Unprot: refcbor.NMap(refcbor.NInt(11), item)}, Payload: []byte("p"), Sig: mon.FixedSig, Tagged: true}).Bytes()
+			in := map[string]any{"kind": "sign1", "nesting": fmt.Sprintf("chain-depth-%d/%d", depth, variant), "wire": mon.FullHex(wire)}
+			c09one(rec, "sign1", "deep-countersignature-chain", wire, nil, in)
+			rec.Event("deep-countersignature-chains")
+		}
+	}
 	// accepted structural mutants of valid encodings
 	bases := gen.ValidCorpus(mon.NewRand(uint64(c.Seed)).Sub(112000), c.N(300, 8000), 40)
 	kindOf := map[refcose.Kind]string{refcose.KSign1Tagged: "sign1", refcose.KSign1Untagged: "untagged", refcose.KSignTagged: "sign", refcose.KSignature: "signature"}
